@@ -1,7 +1,13 @@
 #!/bin/sh
-# usage: tools/try_seed.sh <seed name> <check id> [extra check args]   -- applies /verif/seeded/<name>/patch.diff to /repo, runs the check, reverts
+# usage: tools/try_seed.sh <seed name> <check id> [extra check args]
+# Applies /verif/seeded/<name>/patch.diff to a scratch worktree of /repo, runs the check against that copy
+# (VERIF_REPO; /repo itself stays untouched), removes the worktree.
 NAME=$1; ID=$2; shift 2
-cd /repo && git apply /verif/seeded/$NAME/patch.diff || exit 2
-cd /verif && ./check $ID "$@" > /tmp/try-$NAME-$ID.log 2>&1; rc=$?
-git -C /repo checkout -- . && git -C /repo clean -fdq
-echo "$NAME vs $ID: exit $rc  $(grep -m1 -A1 '^VIOLATION' /tmp/try-$NAME-$ID.log | tr '\n' ' ' | cut -c1-260)"
+WT=/tmp/wts-$NAME-$ID-$$
+OUT=/tmp/try-out-$NAME-$ID-$$
+git -C /repo worktree add -q --detach $WT HEAD || exit 2
+trap 'git -C /repo worktree remove --force '$WT' 2>/dev/null; rm -rf '$OUT EXIT
+( cd $WT && git apply /verif/seeded/$NAME/patch.diff ) || { echo "$NAME vs $ID: patch does not apply"; exit 2; }
+mkdir -p $OUT
+VERIF_REPO=$WT VERIF_ROOT=$OUT /verif/check $ID "$@" > /tmp/try-$NAME-$ID.log 2>&1; rc=$?
+echo "$NAME vs $ID: exit $rc  $(grep -m1 -A1 '^VIOLATION' /tmp/try-$NAME-$ID.log | sed 's/replay=[^ ]*//' | tr '\n' ' ' | cut -c1-240)"
